@@ -270,6 +270,25 @@ CHECKS = {
         "signature.",
         "DESIGN.md 5/C07",
     ),
+    "C06": (
+        "exploration",
+        "exhaustive reachability enumeration over the live object graph a "
+        "module receives (identity-deduplicated breadth-first walk from "
+        "inside a live invocation) + attack corpus and generated path "
+        "programs executed for real with canaries",
+        "Every value reachable from the module environment, the frame, the "
+        "string metatable, require / _cached_mod / _new_loader of every "
+        "known module name and every filter-passing attribute of every "
+        "reachable Python object is compared by identity with the host's "
+        "forbidden capabilities and classified; 40 classic escapes and "
+        "generated path programs run in scratch directories with canary "
+        "file, environment variable, database and context snapshots.",
+        "Exhaustive only for the stated edge alphabet (no upvalues, helpers "
+        "are not called with arguments by the walk); trusts lupa's table "
+        "iteration and the Lua stand-in library; memory safety of Lua/lupa "
+        "is out of scope.",
+        "DESIGN.md 5/C06",
+    ),
 }
 
 NOT_YET = "check not built yet in this round (planned in DESIGN.md section 5)"
